@@ -419,6 +419,16 @@ class Unit:
         open(cfile, 'w').write(text)
         # contract stubs that the extracted code does not call cannot be named to --replace-call-with-contract
         extra_used = [n for n in it.extra_replace if len(re.findall(r'\b%s\(' % re.escape(n), text)) >= 2]
+        # clause tags of hand-declared contract stubs: /*@tag*/ at the end of a requires line
+        for n in it.extra_replace:
+            m = re.search(r'^[^\n]*\b%s\([^\n]*\)\n((?:__CPROVER_[^\n]*\n)+)' % re.escape(n), it.pre + '\n' + it.post_protos, re.M)
+            if m:
+                tags = []
+                for ln in m.group(1).splitlines():
+                    if ln.startswith('__CPROVER_requires'):
+                        tm = re.search(r'/\*@([A-Za-z0-9_]+)\*/', ln)
+                        tags.append(tm.group(1) if tm else 'requires_%d' % (len(tags) + 1))
+                leaf_req[n] = tags
         self.emitted[it.name] = {
             'cfile': cfile, 'root': rootc, 'root_cxx': root.get('name'), 'mangled': root.get('mangledName'),
             'leaves': leaf_names, 'leaf_keys': [k for _, (f, k) in em.leaves.items()],
